@@ -4,6 +4,7 @@ import (
 	"fmt"
 	"go/token"
 	"go/types"
+	"sort"
 	"strings"
 
 	"golang.org/x/tools/go/ssa"
@@ -33,6 +34,7 @@ func runC17(c *Ctx) {
 	if send == nil || onResp == nil || onReq == nil || request == nil || respond == nil || newResp == nil {
 		return
 	}
+	checkResponsePathNeverQueues(c, onResp)
 	// ---- R13 a request ends with a reply or an error, never with neither: the retry loop is left
 	// — other than by its own counter running out, which happens only after failed attempts —
 	// only after an attempt was made (the exit is dominated by the send). Leaving before the
@@ -524,3 +526,82 @@ func structTag(p *Program, pkgRel, name, field string) string {
 }
 
 func ff0(fn *ssa.Function) *FuncFacts { return factsOf(fn) }
+
+// checkResponsePathNeverQueues — R15. A reply that has arrived must reach the waiting requester
+// within the request's timeout whatever else the node is doing; in particular the response
+// stream handler must not wait for something that request handlers hold for as long as the
+// application's RPC handler runs (a shared slot, a semaphore, a queue) — with enough slow
+// request handlers running, every reply would sit in front of onResponse until the requests
+// have timed out, and nested requests made by those handlers could never complete. Structural
+// condition: between the function value registered with SetStreamHandler for the response
+// protocol and onResponse itself there is no potentially unbounded wait (channel send/receive,
+// blocking select, Wait): every function on a call path from the registered handler to
+// onResponse, onResponse excluded, is free of blocking operations.
+func checkResponsePathNeverQueues(c *Ctx, onResp *ssa.Function) {
+	p := c.P
+	rule := "C17.R15 response-path-never-queues"
+	start := c.Anchor("pkg/p2p.(*MessageProtocol).start")
+	if start == nil {
+		return
+	}
+	n := 0
+	for _, call := range AllCallsDeep(start) {
+		if !strings.HasSuffix(CalleeName(call.Common()), "Host.SetStreamHandler") {
+			continue
+		}
+		args := call.Common().Args
+		// a handler produced by a wrapping call — wrap(…, mp.onResponse) — runs the function values it
+		// was given: they count as called by the closure the wrapper returns
+		wrapsResp := false
+		if wc, ok := stripConv(args[len(args)-1]).(*ssa.Call); ok {
+			for _, a := range wc.Common().Args {
+				if _, isFn := a.Type().Underlying().(*types.Signature); !isFn {
+					continue
+				}
+				for _, w := range funcValueTargets(a, 0) {
+					w = unwrapBound(w)
+					if w == onResp {
+						wrapsResp = true
+					} else if _, ok := reachableFrom(p, []*ssa.Function{w}, func(g *ssa.Function) bool { return !strings.HasPrefix(FuncKey(g), "pkg/p2p.") })[onResp]; ok {
+						wrapsResp = true
+					}
+				}
+			}
+		}
+		for _, t := range funcValueTargets(args[len(args)-1], 0) {
+			t = unwrapBound(t)
+			fwd := reachableFrom(p, []*ssa.Function{t}, func(g *ssa.Function) bool { return !strings.HasPrefix(FuncKey(g), "pkg/p2p.") })
+			if _, reaches := fwd[onResp]; !reaches && !wrapsResp {
+				continue
+			}
+			if wrapsResp {
+				fwd[onResp] = nil
+			}
+			n++
+			bad := ""
+			var fs []*ssa.Function
+			for g := range fwd {
+				fs = append(fs, g)
+			}
+			sort.Slice(fs, func(i, j int) bool { return FuncKey(fs[i]) < FuncKey(fs[j]) })
+			for _, g := range fs {
+				if g == onResp {
+					continue
+				}
+				// on a path to onResponse?
+				if _, ok := reachableFrom(p, []*ssa.Function{g}, func(h *ssa.Function) bool { return !strings.HasPrefix(FuncKey(h), "pkg/p2p.") })[onResp]; !ok && !(wrapsResp && g == t) {
+					continue
+				}
+				for _, b := range g.Blocks {
+					for _, in := range b.Instrs {
+						if d := blockingOp(in); d != "" && bad == "" {
+							bad = FuncKey(g) + ": " + d + " at " + p.InstrPos(in) + " before the response handler runs"
+						}
+					}
+				}
+			}
+			c.Require(rule, FuncKey(start)+": response stream handler "+FuncKey(t), p.InstrPos(call.(ssa.Instruction)), "nothing between the registered response handler and onResponse can wait (a delivered reply is never queued behind running request handlers)", bad == "", bad)
+		}
+	}
+	c.MinInstances(rule, n, 1)
+}
